@@ -337,9 +337,7 @@ func (e *kvElection) verifyLeadershipAfterReconnect() {
 }
 
 func (e *kvElection) handleReconnectVerificationFailed(err error) {
-	e.mu.Lock()
-	defer e.mu.Unlock()
-
+	// e.mu must not be held here: becomeFollower and the OnDemote lookup take it themselves
 	if e.isLeader.Load() {
 		log := e.getLogger()
 		log.Error("demoting_due_to_reconnect_verification_failure",
@@ -350,7 +348,9 @@ func (e *kvElection) handleReconnectVerificationFailed(err error) {
 		)
 
 		verifNote(e, "verify_fail", 0)
-		e.becomeFollower()
+		if !e.becomeFollower() {
+			return
+		}
 
 		e.mu.RLock()
 		onDemote := e.onDemote
